@@ -616,6 +616,11 @@ func (e *Engine) CheckCounters(what string) {
 	if e.Queue == nil {
 		return
 	}
+	defer func() {
+		if r := recover(); r != nil {
+			e.fail("%s: a counter query panicked: %v", what, r)
+		}
+	}()
 	pend := e.Flushed - e.Acked
 	if p, err := e.Queue.Pending(); err != nil || p != pend {
 		e.fail("%s: Pending() = %d (%v), flushed %d - acked %d = %d", what, p, err, e.Flushed, e.Acked, pend)
@@ -649,6 +654,11 @@ func (e *Engine) Drain(what string) {
 	if e.Queue == nil {
 		return
 	}
+	defer func() {
+		if r := recover(); r != nil {
+			e.fail("%s: the reader panicked while draining the queue: %v", what, r)
+		}
+	}()
 	if e.InTx {
 		e.apply(Op{Kind: "rdone"})
 	}
